@@ -29,6 +29,10 @@ type c01Case struct {
 	Notify      bool    `json:"notify"`
 	Filter      int     `json:"filter"` // 0 none, 1 rewrite owner to 0:0, 2 rewrite to 1000:1001
 	Capacity    int     `json:"capacity"`
+	// AbortAt > 0: the prior destination additionally holds the leftovers of an
+	// aborted run - a transfer of the same source whose stream broke when the
+	// receiver had taken that many packets
+	AbortAt int `json:"abort_at,omitempty"`
 }
 
 var c01TreeCfg = h.TreeCfg{
@@ -63,6 +67,9 @@ func genC01(t *rapid.T) *c01Case {
 	c.Notify = rapid.Bool().Draw(t, "notify")
 	c.Filter = rapid.SampledFrom([]int{0, 0, 1, 2}).Draw(t, "filter")
 	c.Capacity = rapid.SampledFrom([]int{0, 1, 8, 64}).Draw(t, "cap")
+	if !c.Merge && rapid.IntRange(0, 3).Draw(t, "aborted") == 0 {
+		c.AbortAt = rapid.IntRange(1, 2*len(c.Src.Nodes)+6).Draw(t, "abortat")
+	}
 	// identity-based differencing presupposes that equal identity means equal bytes
 	switch c.Filter {
 	case 1:
@@ -203,10 +210,6 @@ func c01Check(env *h.Env, c *c01Case) error {
 	if err != nil {
 		return err
 	}
-	before, err := h.Snapshot(dstDir)
-	if err != nil {
-		return h.Infra(err)
-	}
 	opt := fsutil.ReceiveOpt{Merge: c.Merge, Filter: ownerFilter(c.Filter)}
 	if c.DiffNone {
 		opt.Differ = fsutil.DiffNone
@@ -215,6 +218,35 @@ func c01Check(env *h.Env, c *c01Case) error {
 	if c.Notify {
 		opt.NotifyHashed = nl.Fn
 		opt.ContentHasher = h.Hasher
+	}
+	if c.AbortAt > 0 {
+		// leftovers of an aborted run of the same transfer
+		ar := h.RunSync(f, dstDir, h.SyncOpt{Capacity: c.Capacity, Recv: opt, Setup: func(p *h.Pair) {
+			p.R.BeforeRecv = func(n int) error {
+				if n >= c.AbortAt {
+					p.S.Break(errInjected)
+					p.R.Break(errInjected)
+					return errInjected
+				}
+				return nil
+			}
+		}})
+		if ar.Stuck != "" {
+			env.Class("stuck")
+			return nil
+		}
+		if ar.SendErr != nil || ar.RecvErr != nil {
+			env.Class("after-aborted-run")
+			env.NonTrivial()
+		}
+		nl = h.NotifyLog{}
+		if c.Notify {
+			opt.NotifyHashed = nl.Fn
+		}
+	}
+	before, err := h.Snapshot(dstDir)
+	if err != nil {
+		return h.Infra(err)
 	}
 	res := h.RunSync(f, dstDir, h.SyncOpt{Capacity: c.Capacity, Recv: opt})
 	if res.Stuck != "" {
